@@ -101,6 +101,12 @@ def c05(cases, res):
                 # a symbol was inserted: exactly at the cursor, cursor advanced by one
                 if syms[:pcur] != psyms[:pcur] or syms[pcur + 1:] != psyms[pcur:] or cur != pcur + 1:
                     out.append(fail("insert-frame", case, i, "%s@%d -> %s@%d" % (psyms, pcur, syms, cur)))
+            elif s.res == "Absorb" and len(syms) > len(psyms) + 1 and state_of(s) == "Entering":
+                # several symbols were inserted by one key (an abbreviation of the easy-symbol table expands to its
+                # characters): as a block at the cursor, and the cursor ends right after the block
+                n = len(syms) - len(psyms)
+                if syms[:pcur] != psyms[:pcur] or syms[pcur + n:] != psyms[pcur:] or cur != pcur + n:
+                    out.append(fail("insert-frame", case, i, "%s@%d -> %s@%d" % (psyms, pcur, syms, cur)))
         # a symbol chosen from the symbol table (list opened with the backquote key / Ctrl-digit: it INSERTS): exactly at
         # the cursor, and the cursor advances by one - by a key or by a choose call
         for i, prev, s in steps_with_prev(case):
